@@ -16,6 +16,7 @@ import Usual.C16.MemHash
     spooky <h1> <h2>           spookyhash(buf, len, &h1, &h2)   → 16 hex digits, space, 16 hex digits
     xxh <seed>                 xxhash(buf, len, seed)           → 8 hex digits
     mem <seed>                 memhash_seed(buf, len, seed)     → 8 hex digits
+    mem32 <seed>               memhash_seed as a build with 32-bit pointers and longs computes it
 
 Numbers are hex without prefix (1..8 digits for 32-bit, 1..16 for 64-bit arguments, decimal
 for <split>); anything else is `bad-op`. -/
@@ -89,6 +90,10 @@ def step (st : State) (line : String) : State × String :=
         | "mem", [s] =>
           match hexNat s 8 with
           | some s => h32 (Usual.C16.MemHash.memhashSeed true buf (UInt32.ofNat s))
+          | none => "bad-op"
+        | "mem32", [s] =>
+          match hexNat s 8 with
+          | some s => h32 (Usual.C16.MemHash.memhashSeed false buf (UInt32.ofNat s))
           | none => "bad-op"
         | _, _ => "bad-op"
       (st, out)
